@@ -112,9 +112,9 @@ class LinearRTO(Sampler):
                     idx_start = 0
                     idx_end = 0
                     out1 = np.zeros(self.n)
-                    for likelihood in self.likelihoods:
+                    for (L, likelihood) in zip(L1, self.likelihoods):
                         idx_end += len(likelihood.data)
-                        out1 += likelihood.model.adjoint(likelihood.distribution.sqrtprec.T@x[idx_start:idx_end])
+                        out1 += likelihood.model.adjoint(L.T@x[idx_start:idx_end])
                         idx_start = idx_end
                     out2 = L2.T @ x[idx_end:]
                     out  = out1 + out2                
